@@ -9,6 +9,7 @@ pub mod auth;
 pub mod datalog;
 pub mod keycodec;
 pub mod schema;
+pub mod params;
 pub mod expr;
 
 /// SplitMix64: every random choice of a run derives from one state.
